@@ -3,7 +3,8 @@ LEVEL = "proof"
 HARNESS_MODULES = ["contracts.c13_array_index"]
 RULE = ("native tier: each harness (contract) is evaluated by CPython on the real functions for every "
         "input of its stated scope (sizes 0..4, bounds/steps in [-7,7] or None; shapes up to 3x3 for 2D keys); "
-        "a case is distinct by (harness, None/int case split)")
+        "a case is distinct by (harness, None/int case split); plus large arrays (12x12, 8x9, 1x70, 70x1, 64x2, 2x64 ...) indexed "
+        "with integer/slice pairs (steps +-1, +-2, +-3, +-5, +-n; bounds at and beyond the ends) against nested Python lists")
 TRUSTED = [
     "pyvc interpreter and its model of Python ints/bools/tuples/lists/slices (DESIGN.md 1.3), cross-checked "
     "against CPython on every run (encoding_crosscheck_runs)",
@@ -22,6 +23,13 @@ def bounded(tier, seed, rep):
     from specs import pyslice
     n = pyslice.validate(5 if tier == "quick" else 6, -9, 9)
     rep.coverage["pyslice_validation_cases"] = n
+    from bounded import bigindex
+    bigindex.run(rep, tier)
+
+
+def replay(payload):
+    from bounded import bigindex
+    return bigindex.replay(payload)
 
 ENGINE = "pyvc"
 TECHNIQUE = ("contract-based deductive verification: pyvc generates VCs from the AST of the real "
